@@ -7,6 +7,8 @@ import OllamaVerif.Proofs.Gguf
 import OllamaVerif.Proofs.GgufRoundTrip
 import OllamaVerif.Proofs.GgufCreate
 import OllamaVerif.Proofs.GgufSort
+import OllamaVerif.Proofs.GgufFull
+import OllamaVerif.Proofs.GgufShift
 
 namespace OllamaVerif.C05
 open OllamaVerif OllamaVerif.Gguf
@@ -102,6 +104,85 @@ theorem decode_encode_any_key_order (kvs : List (Bytes × KVal)) (ts : List TIn)
              (encHead false align kvs ts).length + padding (encHead false align kvs ts).length align, file.length⟩ :=
   OllamaVerif.Gguf.decode_encode_any_order kvs ts file align maxArraySize hnodup hnoparam hwkv hwt hnk hnt halign hpos
     hoff henc hlen
+
+/-- **The property in one statement, at full strength** (Proofs/GgufFull.lean).  For every key/value list over the
+    eight value types the writer supports (keys in any order and distinct — a Go map —, empty strings and arrays
+    included, `general.alignment` any non-zero uint32), every tensor list (any count, names, kinds, shapes, size
+    residues) and every `maxArraySize`: if the writer produced `file`, the decoder returns a value `d` with
+    `RoundTrip`: the written keys and values (as the list in key order and as look-ups; nothing else but the parameter
+    count), tensor by tensor the written name, kind and dimension-reversed shape, the written bytes at
+    `d.tensorOffset + offset`, that location inside the file and a multiple of the alignment, and
+    `d.endOffset = file.length`.
+    The only size bound is `file.length < 2^63` (the per-string / per-array / per-count / per-offset bounds of
+    `decode_encode_any_key_order` are DERIVED from it: a part of the file is no longer than the file).  What is left
+    as hypotheses: Go's types (`TypedVal`, `TypedTensor`), the data-source contract `WfT` (a tensor's `WriterTo` writes
+    `Size()` bytes), no written `general.parameter_count` (the decoder overwrites it), alignment ≠ 0. -/
+theorem write_decode_full (kvs : List (Bytes × KVal)) (ts : List TIn) (file : Bytes) (align : Nat) (maxArraySize : Int)
+    (hnodup : (kvs.map (·.1)).Nodup)
+    (hnoparam : ∀ kv ∈ kvs, kv.1 ≠ keyParamCount)
+    (htv : ∀ kv ∈ kvs, TypedVal kv.2) (htt : ∀ t ∈ ts, TypedTensor t ∧ WfT t)
+    (halign : alignmentIn kvs = .ok align) (hpos : 0 < align)
+    (henc : encode false kvs ts = .ok file) (hlen : file.length < two63) :
+    ∃ d, decode file maxArraySize none = .ok d ∧
+      RoundTrip kvs ts file align (if maxArraySize = 0 then 1024 else maxArraySize) d :=
+  OllamaVerif.Gguf.write_decode_full kvs ts file align maxArraySize hnodup hnoparam htv htt halign hpos henc hlen
+
+/-- non-vacuity of `write_decode_full`: keys out of order (the alignment key after `zz`), an empty string, an empty
+    array, an array above the default collection limit is not needed for the hypotheses; three tensors whose size (4)
+    is not a multiple of the alignment (8) -/
+def kvFull : List (Bytes × KVal) :=
+  [([122, 122], .str []), (keyAlignment, .u32 8), ([97], .astr []), ([98], .ai32 [4294967295, 0])]
+
+example : (kvFull.map (·.1)).Nodup ∧ (∀ kv ∈ kvFull, kv.1 ≠ keyParamCount ∧ TypedVal kv.2) ∧
+    alignmentIn kvFull = .ok 8 ∧ (∀ t ∈ [t4 1, t4 2, t4 3], TypedTensor t ∧ WfT t) ∧
+    (encode false kvFull [t4 1, t4 2, t4 3]).isOk = true := by
+  refine ⟨by decide, ?_, rfl, ?_, by decide⟩
+  · intro kv hkv
+    simp only [kvFull, List.mem_cons, List.not_mem_nil, or_false] at hkv
+    rcases hkv with rfl | rfl | rfl | rfl
+    · exact ⟨by decide, trivial⟩
+    · exact ⟨by decide, by unfold TypedVal; decide⟩
+    · exact ⟨by decide, trivial⟩
+    · refine ⟨by decide, ?_⟩
+      intro x hx
+      simp only [List.mem_cons, List.not_mem_nil, or_false] at hx
+      rcases hx with rfl | rfl <;> decide
+  · intro t ht
+    simp only [List.mem_cons, List.not_mem_nil, or_false] at ht
+    rcases ht with rfl | rfl | rfl <;>
+      exact ⟨⟨by decide, by decide, by decide⟩, by unfold WfT; decide⟩
+
+/-- **A written file decoded as the 2nd, 3rd, … model of an upload** (Proofs/GgufShift.lean): with the reader at file
+    position `p`, a multiple of the file's alignment (the decoder pads to absolute file offsets), and whatever bytes
+    follow the file, the decode succeeds and ends at `p + file.length` — where the next model starts.
+    (`Gguf.decode_encode_at_sorted` gives the whole decoded value: same keys, values, tensor infos; data start moved by `p`.) -/
+theorem decode_written_file_at (file tail : Bytes) (align p : Nat) (maxArraySize : Int) (hw : Written file align)
+    (hp : p % align = 0) (hlen : p + file.length < two63) :
+    ∃ d, decodeFrom ⟨file ++ tail, p⟩ maxArraySize none = .ok d ∧ d.endOffset = p + file.length :=
+  decode_written_at file tail align p maxArraySize hw hp hlen
+
+/-- **create on several written files uploaded back to back** (`server/create.go ggufLayers`, the use of the end offset
+    the property names): two or more non-empty written files, each starting at a multiple of its own alignment: create
+    answers with exactly one layer per file; layer i starts where file i starts and is exactly as long as file i
+    (`LayersMatch`) — every layer is exactly one model. -/
+theorem create_layers_of_written_files (fs : List (Bytes × Nat)) (maxSeek : Nat)
+    (h2 : 2 ≤ fs.length) (hpos : ∀ f ∈ fs, 0 < f.1.length)
+    (haw : AlignedWritten 0 fs)
+    (hlt : (fs.map (·.1)).flatten.length < two63) (hms : (fs.map (·.1)).flatten.length ≤ maxSeek) :
+    ∃ out, ggufLayers (fs.map (·.1)).flatten none Guards.tree maxSeek = some (.ok out) ∧
+      LayersMatch out (startsFrom 0 (fs.map (·.1))) (fs.map (·.1)) :=
+  OllamaVerif.Gguf.create_layers_of_written_files fs maxSeek h2 hpos haw hlt hms
+
+/-- non-vacuity: a file written with alignment 1 (any start is aligned), uploaded twice -/
+def kvA1 : List (Bytes × KVal) := [(keyAlignment, .u32 1)]
+example : (encode false kvA1 [t4 1]).isOk = true := by decide
+example (f : Bytes) (h : encode false kvA1 [t4 1] = .ok f) : AlignedWritten 0 [(f, 1), (f, 1)] := by
+  have hw : Written f 1 := ⟨⟨kvA1, [t4 1], by decide, by
+    intro kv hkv; simp only [kvA1, List.mem_singleton] at hkv; subst hkv; decide, by
+    intro kv hkv; simp only [kvA1, List.mem_singleton] at hkv; subst hkv; unfold TypedVal; decide, by
+    intro t ht; simp only [List.mem_singleton] at ht; subst ht
+    exact ⟨⟨by decide, by decide, by decide⟩, by unfold WfT; decide⟩, rfl, by decide, h⟩⟩
+  exact ⟨hw, Nat.mod_one _, hw, Nat.mod_one _, trivial⟩
 
 /-- the decoded keys are exactly the written keys (as a set) plus the parameter count -/
 theorem decoded_keys_are_written_keys (kvs : List (Bytes × KVal)) (k : Bytes) :
